@@ -736,6 +736,7 @@ def judgeLine2 (j : JSt) (lineNo : Nat) (opLine obsLine : String) : JSt :=
             j.setMon a { m with r := r', prevKeys := o.keys, origin := "C14", hist := hist', judged := wellFormed }
       | none => j
     | _, _ => j
+  | ["snap", _] => j
   | ["save", _] => j
   | ["loadcuts", a, _] =>
     match (parseHandle a).bind j.getMon with
